@@ -115,6 +115,11 @@ def pieces_from_json(js):
                 out.append(("~", "+"))
             elif t == "OldWorkingDir":
                 out.append(("~", "-"))
+            elif isinstance(t, dict) and "NthDirFromTopOfDirStack" in t:
+                x = t["NthDirFromTopOfDirStack"]
+                out.append(("~", ("+" if x["plus_used"] else "") + str(x["n"])))
+            elif isinstance(t, dict) and "NthDirFromBottomOfDirStack" in t:
+                out.append(("~", "-" + str(t["NthDirFromBottomOfDirStack"]["n"])))
             else:
                 out.append(("?tilde", json.dumps(t)))
         elif "CommandSubstitution" in p:
@@ -260,6 +265,7 @@ class Case:
         self.arith = arith or {}
         self.tag = tag
         self.ref = ref
+        self.cwdsub = None          # name of a subdirectory to work in (adversarial characters allowed, no '/')
         self.text = render(word)
 
     def home(self):
@@ -270,6 +276,32 @@ class Case:
 
     def flags(self):
         return ("c" if self.ctx == "assign" else "") + ("e" if "e" in self.opts else "")
+
+    def var_value(self, name):
+        for n, v in self.vars:
+            if n == name and isinstance(v, str):
+                return v
+        return None
+
+    def cwd(self):
+        return "@BASE@" + (("/" + self.cwdsub) if self.cwdsub else "")
+
+    def tilde_value(self, t):
+        """expand_tilde_expression on this case (empty directory stack); None = error"""
+        import pwd
+        if t == "":
+            return self.home()
+        if t in ("+", "0", "+0", "-0"):
+            return self.cwd()
+        if t == "-":
+            o = self.var_value("OLDPWD")
+            return o if o is not None else "~-"
+        if t.lstrip("+-").isdigit():
+            return "~" + t
+        try:
+            return pwd.getpwnam(t).pw_dir
+        except KeyError:
+            return "~" + t
 
     def var_fields(self, extra=()):
         f = [str(len(self.vars) + len(extra))]
@@ -282,6 +314,8 @@ class Case:
 
     def impl_fields(self):
         extra = [("ref__", self.ref)] if self.ref is not None else []
+        if self.cwdsub:
+            extra.append(("cwdsub__", self.cwdsub))
         return ([self.ctx, "U" if self.ifs is None else "S" + self.ifs, self.opts, self.text,
                  str(len(self.args))] + self.args + self.var_fields(extra) + [str(len(self.names))] + self.names)
 
@@ -300,11 +334,8 @@ class Case:
             for p in collect(w, "C"):
                 ansics[p[1]] = ansic_decode(p[1])
             for p in collect(w, "~"):
-                if p[1] == "":
-                    h = self.home()
-                    tildes[""] = ("S" + h) if h is not None else "N"
-                else:
-                    tildes[p[1]] = "S~" + p[1]      # unknown user: stays literal
+                v = self.tilde_value(p[1])
+                tildes[p[1]] = ("S" + v) if v is not None else "N"
         for tbl in (cmds, ariths, tildes, ansics):
             f.append(str(len(tbl)))
             for k, v in tbl.items():
@@ -408,6 +439,10 @@ def bash_script(c):
         lines.append("set -f")
     if "b" in c.opts:
         lines.append("set +B")
+    if getattr(c, "cwdsub", None):
+        lines.insert(0, "cd -- %s || exit 3" % sq(c.cwdsub))
+    ov = c.var_value("OLDPWD")
+    lines.append("OLDPWD=%s" % sq(ov) if ov is not None else "unset OLDPWD")
     lines.append("unset IFS" if c.ifs is None else "IFS=" + sq(c.ifs))
     t = c.text
     body = {
@@ -420,6 +455,7 @@ def bash_script(c):
         "cond": "if [[ %s == \"$ref__\" ]]; then zz 1; else zz 0; fi" % t,
         "condp": "if [[ \"$ref__\" == %s ]]; then zz 1; else zz 0; fi" % t,
         "condn": "if [[ -n %s ]]; then zz 1; else zz 0; fi" % t,
+        "multi": t,
     }.get(c.ctx)
     if body is None:
         return None
@@ -432,14 +468,21 @@ class BashRunner:
     def __init__(self):
         self.base = tempfile.mkdtemp(prefix="c04bash-", dir=os.environ.get("VERIF_SCRATCH_BASE", "/var/tmp"))
         self.dirs = {}
+        self.subs = set()
 
-    def dir_for(self, names):
-        key = tuple(names)
+    def dir_for(self, names, sub=None):
+        """the directory holding `names`; with `sub`: a parent of its own holding only the subdirectory `sub`
+        (which holds `names`) -- returns the parent"""
+        key = (tuple(names), sub)
         if key not in self.dirs:
             d = os.path.join(self.base, "d%d" % len(self.dirs))
             os.makedirs(d)
+            target = d.encode()
+            if sub:
+                target = os.path.join(target, sub.encode("utf-8", "surrogateescape"))
+                os.makedirs(target)
             for n in names:
-                open(os.path.join(d.encode(), n.encode("utf-8", "surrogateescape")), "wb").close()
+                open(os.path.join(target, n.encode("utf-8", "surrogateescape")), "wb").close()
             self.dirs[key] = d
         return self.dirs[key]
 
@@ -450,7 +493,7 @@ class BashRunner:
         from concurrent.futures import ThreadPoolExecutor
         scripts = [bash_script(c) for c in cases]
         for c in cases:
-            self.dir_for(c.names)
+            self.dir_for(c.names, getattr(c, "cwdsub", None))
         idx = [i for i, s in enumerate(scripts) if s is not None]
         chunks = [idx[k:k + batch] for k in range(0, len(idx), batch)]
         out = [None] * len(cases)
@@ -458,7 +501,7 @@ class BashRunner:
         def one(chunk):
             parts = [BASH_PRELUDE, 'run_case() { ( cd "$1" || exit 3; eval "$2" ) 2>/dev/null; }\n']
             for i in chunk:
-                parts.append("printf 'CASE\\0%%s\\0' %d\nrun_case %s %s\n" % (i, sq(self.dir_for(cases[i].names)), sq(scripts[i])))
+                parts.append("printf 'CASE\\0%%s\\0' %d\nrun_case %s %s\n" % (i, sq(self.dir_for(cases[i].names, getattr(cases[i], "cwdsub", None))), sq(scripts[i])))
             stdout, timed_out = run_group(["/usr/bin/bash", "--norc", "--noprofile", "-c", "".join(parts)],
                                           env={"LC_ALL": "C.UTF-8", "PATH": "/usr/bin:/bin"}, timeout=300)
             if timed_out:
@@ -484,10 +527,18 @@ class BashRunner:
                 cs = res.get(i)
                 if cs is None:
                     ret.append((i, ("TIMEOUT",)))      # the batch died before reaching this case
+                elif cases[i].ctx == "multi":
+                    base = self.dir_for(cases[i].names, getattr(cases[i], "cwdsub", None))
+                    f = [str(len(cs))]
+                    for call in cs:
+                        f.append(str(len(call)))
+                        f += [a.replace(base, "@BASE@") for a in call]
+                    ret.append((i, ("OK", f)))
                 elif len(cs) != 1:
                     ret.append((i, ("ERR",)))
                 else:
-                    ret.append((i, ("OK", cs[0])))
+                    base = self.dir_for(cases[i].names, getattr(cases[i], "cwdsub", None))
+                    ret.append((i, ("OK", [a.replace(base, "@BASE@") for a in cs[0]])))
             return ret
         with ThreadPoolExecutor(jobs) as ex:
             for ret in ex.map(one, chunks):
@@ -575,3 +626,42 @@ def pick_class(ids):
         if i in op:
             return i
     return ids[0]
+
+
+# ------------------------------------------------------------------ tilde: HOME / PWD / OLDPWD over the adversarial alphabet
+
+TILDE_DIRS = ["/d/my home", "/d/star/*", "/d/q?", "/d/[ab]", "/d/a\nb", "/d/tab\there", " lead", "/d/é x", "/d/a:b",
+              "/d/plain", "/d/$x", "/d/'q'", "/d/{a,b}", "*", "/d/two  blanks "]
+TILDE_SUBS = ["my dir", "st*r", "q?", "[cd]", "a\nb", "plain", " x", "t\tb", "a:b"]
+TILDE_FORMS = ["", "", "", "+", "+", "-", "-", "0", "+0", "-0", "1", "+2", "-3", "root", "nosuchuser__"]
+
+
+def gen_tilde_case(rng, ifses, optsets, dirs, ctxs=("arg", "arg", "arrelem", "assign", "herestr")):
+    """a word starting with a tilde prefix whose target holds blanks / glob characters / newlines.
+    expected (the statement of the property): the target is never split, never globbed"""
+    ctx = rng.choice(ctxs)
+    t = rng.choice(TILDE_FORMS)
+    word = [("~", t)]
+    suffix = rng.choice(["", "", "/x", "/f", ":q" if ctx == "assign" else "/x.y"])
+    second = None
+    if ctx == "assign" and rng.random() < 0.35:
+        second = rng.choice(["", "-", "+"])          # y=~/x:~-  (tilde after a colon in assignments)
+    if suffix or second is not None:
+        word.append(("T", suffix + (":" if second is not None else "")))
+    if second is not None:
+        word.append(("~", second))
+    vars_ = [("HOME", rng.choice(TILDE_DIRS))]
+    if rng.random() < 0.8:
+        vars_.append(("OLDPWD", rng.choice(TILDE_DIRS)))
+    c = Case(ctx, word, ifs=rng.choice(ifses), opts=rng.choice(optsets), vars=vars_, names=rng.choice(dirs), tag="tilde")
+    if rng.random() < 0.7:
+        c.cwdsub = rng.choice(TILDE_SUBS)
+    val = c.tilde_value(t) + suffix
+    if second is not None:
+        val += ":" + c.tilde_value(second)
+    c.value = val
+    if ctx == "herestr":
+        c.expected = ("OK", [val + "\n"])
+    else:
+        c.expected = ("OK", [val])
+    return c
